@@ -118,12 +118,12 @@ type recModule struct {
 }
 
 func (m *recModule) Configure(name, configRoot string) {}
-func (m *recModule) Start() error                       { return nil }
-func (m *recModule) Stop() error                        { return nil }
-func (m *recModule) GetName() string                    { return m.name }
-func (m *recModule) GetGroupAllowlist() *regexp.Regexp  { return m.allow }
-func (m *recModule) GetGroupDenylist() *regexp.Regexp   { return m.deny }
-func (m *recModule) GetLogger() *zap.Logger             { return zap.NewNop() }
+func (m *recModule) Start() error                      { return nil }
+func (m *recModule) Stop() error                       { return nil }
+func (m *recModule) GetName() string                   { return m.name }
+func (m *recModule) GetGroupAllowlist() *regexp.Regexp { return m.allow }
+func (m *recModule) GetGroupDenylist() *regexp.Regexp  { return m.deny }
+func (m *recModule) GetLogger() *zap.Logger            { return zap.NewNop() }
 func (m *recModule) AcceptConsumerGroup(*protocol.ConsumerGroupStatus) bool {
 	return true
 }
